@@ -515,7 +515,7 @@ def cli(argv=None, mode='output'):
 
         try:
             cnf = args.generator.build_formula(args, formula_class=CNF)
-        except (CLIError, ValueError, TypeError) as e:
+        except (CLIError, ValueError, TypeError, OverflowError) as e:
             args.generator.subparser.error(e)
         except RuntimeError as e:
             raise InternalBug(e) from e
@@ -523,7 +523,7 @@ def cli(argv=None, mode='output'):
         for argdict in t_args:
             try:
                 cnf = argdict.transformation.transform_cnf(cnf, argdict)
-            except (CLIError, ValueError, TypeError) as e:
+            except (CLIError, ValueError, TypeError, OverflowError) as e:
                 argdict.transformation.subparser.error(e)
             except RuntimeError as e:
                 raise InternalBug(e) from e
